@@ -1667,8 +1667,10 @@ static struct uftrace_record *get_task_ustack(struct uftrace_data *handle, int i
 		uint64_t time_filter = handle->time_filter;
 		unsigned size_filter = handle->size_filter;
 		bool small = false;
+		unsigned raw_depth;
 
 		curr = &task->ustack;
+		raw_depth = curr->depth;
 
 		/* prevent ustack from invalid access */
 		task->valid = false;
@@ -1720,7 +1722,7 @@ static struct uftrace_record *get_task_ustack(struct uftrace_data *handle, int i
 
 				tfs = xmalloc(sizeof(*tfs));
 				tfs->next = task->filter.stack;
-				tfs->depth = curr->depth;
+				tfs->depth = raw_depth;
 				tfs->context = FSTACK_CTX_USER;
 				tfs->threshold = time_filter;
 				tfs->size = size_filter;
@@ -1741,7 +1743,7 @@ static struct uftrace_record *get_task_ustack(struct uftrace_data *handle, int i
 				struct uftrace_task_filter_stack *tfs;
 
 				tfs = task->filter.stack;
-				if (tfs->depth == curr->depth && tfs->context == FSTACK_CTX_USER) {
+				if (tfs->depth == (int)raw_depth && tfs->context == FSTACK_CTX_USER) {
 					/* discard stale filter */
 					task->filter.stack = tfs->next;
 					free(tfs);
